@@ -303,7 +303,7 @@ func c14Run(rt *rapid.T, p c14Plan, seed string) (m *lm, log []string, nontrivia
 		return m, log, nontrivial, "" // a parent-closed prefix is a smaller well-formed ledger; nothing to compare with the source
 	}
 	// equality of ledgers
-	raw, err := tgt.Book.VerifSnapshot()
+	raw, err := sim.RawSnapshot(tgt.Book)
 	if err != nil {
 		return m, log, nontrivial, "snapshot: " + err.Error()
 	}
@@ -436,7 +436,7 @@ func c14Run(rt *rapid.T, p c14Plan, seed string) (m *lm, log []string, nontrivia
 			}
 		}
 		m.observe("follow-up " + kind)
-		raw2, err := tgt.Book.VerifSnapshot()
+		raw2, err := sim.RawSnapshot(tgt.Book)
 		if err == nil && !weightDiverged {
 			T2 := sim.MakeSnap(raw2, nil)
 			if !sameKeys(T2.LiveSet(), m.snaps[0].LiveSet()) {
